@@ -298,3 +298,22 @@ check(
     level_note="trusted: long double radix-2 FFT in the reference (nfft is a power of two here); windows come from dsplib::window (judged by C11)",
     assumptions=["tones for the real-input labelling check stay 3 bins away from 0 and 0.5; exact half-bin ties are not judged"],
 )
+
+check(
+    "C14",
+    runs=[dict(harness="C14_analytic", flavour="plain")],
+    rule=("hilbert(x) for lengths 3..4096 (quick: all to 300 + a residue class; thorough: all to 1200 + two residue classes), odd and even, six "
+          "input kinds with and without DC / Nyquist content: Re z == x (8*n*eps*max|x|), long-double DFT of z vanishes on the negative bins "
+          "(32*n*eps), hilbert(x,m) == hilbert(pad/truncate); HilbertFilter lengths {31,32,51,64,101,128,201,300,401} x tw in "
+          "{.005,.01,.02,.05,.1}: real part == input delayed by M/2 exactly under random framing, imaginary part == 90-degree shifted tone "
+          "within 1e-3*A for tones at the guard frequency max(2tw,6/M), at 0.5-guard and random in between; Tuner for fs in {8,...,1e5}, "
+          "integer / half-integer / random fractional / band-edge f, streams of 3..9*fs samples in random frames: every sample == "
+          "x[k]*exp(2*pi*i*f*k/fs) with the phase reduced exactly in long double. distinct = (configuration, input bits)."),
+    min_distinct={"quick": 1500, "thorough": 6000},
+    min_obs={"quick": {"hilbert_filter_tones": 200, "tuner_streams_fractional_f": 10, "tuner_streams_integer_f": 5},
+             "thorough": {"hilbert_filter_tones": 700, "tuner_streams_fractional_f": 20, "tuner_streams_integer_f": 10}},
+    technique="runtime monitor: definition-based oracles in long double (DFT of the analytic signal, delayed/quadrature tone, exact phase of the stream index)",
+    level_text=("Each tool is executed over the stated lengths, frequencies and framings and compared with its mathematical definition "
+                "evaluated in extended precision; held on the evaluations counted in the evidence."),
+    level_note="trusted: long double DFT and trigonometric functions; M is read from impz()",
+)
